@@ -194,6 +194,10 @@ def classify_pos_write(f, store, stmt):
                                 and len(d.operand.ops) == 2 and ast.unparse(d.operand.left) == '0' and ast.unparse(d.operand.comparators[0]) == val.id \
                                 and all(isinstance(o, ast.LtE) for o in d.operand.ops) and 'len(' in ast.unparse(d.operand.comparators[1]):
                             lo = hi = True
+            if not (lo and hi):
+                from .mutate import facts_before
+                fx = facts_before(f, val.id, stmt.lineno)
+                lo, hi = lo or 'ge0' in fx, hi or 'le_len' in fx
             return 'validated' if (lo and hi) else ('half-validated' if (lo or hi) else 'unvalidated-param')
         return 'unrecognised'
     if isinstance(val, ast.Subscript) and isinstance(val.value, ast.Name) and ast.unparse(val.slice) == '0':
@@ -216,6 +220,10 @@ def classify_pos_write(f, store, stmt):
                         if isinstance(d, ast.UnaryOp) and isinstance(d.op, ast.Not) and isinstance(d.operand, ast.Compare) and len(d.operand.ops) == 2 \
                                 and ast.unparse(d.operand.comparators[0]) == l.id and 'len(self)' in ast.unparse(d.operand.comparators[1]):
                             lo = hi = True
+            if not (lo and hi):
+                from .mutate import facts_before
+                fx = facts_before(f, l.id, stmt.lineno)
+                lo, hi = lo or 'ge0' in fx, hi or 'le_len' in fx
             return 'after-written' if (lo and hi) else 'after-written-unvalidated'
     return 'unrecognised'
 
@@ -246,6 +254,8 @@ def rule_POSW(ctx):
     """Every write of _pos assigns a value that is in [0, len] by construction."""
     m = ctx.m
     r = RuleResult('POSW', 'every _pos write is a constant 0, the length, a validated/restored/found position or a bounded increment')
+    from . import mutate as _mu
+    _mu._MODEL[0] = m
     n = 0
     E = get_effects(ctx)
     # a _pos write on a local that may BE the receiver (callee can return self) moves the receiver's position
@@ -429,6 +439,8 @@ def rule_POST(ctx):
     """Operations move pos exactly as documented (kind of the assigned value, per method)."""
     m = ctx.m
     r = RuleResult('POST', 'documented position after append/prepend/insert/overwrite/find/deletions/new objects')
+    from . import mutate as _mu
+    _mu._MODEL[0] = m
     c = 'BitStream'
     for name, (want, conditional) in POST.items():
         fs = m.winner(c, name)
